@@ -127,7 +127,16 @@ def discharge(check_id, job, pr, out, replay_kind, describe=None, timeout_ms=400
         while True:
             t0 = time.time()
             v = None
-            if acons is not None and tries == 0:
+            if meta.get("fp") and tries == 0:
+                from . import fpprove
+                v, info = fpprove.prove(cons, goal)
+                out.d["queries"] += info.get("queries", 0)
+                model = None
+                info["solver"] = "z3-5.1.0 compositional FP proof (%d small queries, level %s)" % (info.get("queries", 0), info.get("level"))
+                info["time_s"] = info.get("time_s", 0)
+                if v != "unsat":
+                    v = None
+            if v is None and acons is not None and tries == 0:
                 v, model, info = solve.decide(acons, z3.Not(agoal), {}, timeout_ms=timeout_ms, ext_timeout_s=ext_timeout_s)
                 out.d["queries"] += 1
                 if v != "unsat":
